@@ -922,11 +922,23 @@ func proxyFamily(c *core.Ctx) {
 				in["received_content_encoding"] = p.cenc
 				in["received_body_bytes"] = strconv.Itoa(len(p.body))
 				in["received_body_head"] = short(string(p.body))
+				if cases[i].how != "enc" {
+					in["backend_body_decodes_to"] = fmt.Sprintf("%q", tb[i].d)
+					if d2, ok := decodeUnder(p.cenc, p.body); ok {
+						in["received_body_decodes_to"] = fmt.Sprintf("%q", d2)
+					}
+				}
 				reason := "predicate not evaluated"
 				if len(v) >= 2 {
 					reason = string(v[1])
 				}
-				c.Fail("property", famProp, "", in, reason)
+				shape := ""
+				if tb[i].renderFlag == "2" && p.err == "" && p.status == b.status {
+					// html.Render refuses the tree html.Parse built (an element named like an HTML void element with
+					// children inside foreign content, e.g. <svg><input>x</input></svg>): the page goes out without the script
+					shape = "RenderRefusesParsedTreeScriptNotInserted"
+				}
+				c.Fail("property", famProp, shape, in, reason)
 			}
 		} else {
 			c.Hist("predicate: " + string(v[1]))
